@@ -65,6 +65,7 @@ def run(ctx):
     entry_state_is_per_entry(ctx)
     registry_identity(ctx)
     loss_sequence(ctx)
+    unregistering_during_notification(ctx)
     callout_loops(ctx)
     proxy_registry(ctx)
     per_instance_registries(ctx)
@@ -422,6 +423,98 @@ def entry_state_is_per_entry(ctx):
            bool(returned) and not (returned & fr.body_assigned),
            'the list of endpoints that is returned must be created once, '
            'before the loop over the entries')
+
+
+def _tolerant_removals(fn, attr):
+    """(n_removals, n_tolerant): self.<attr>.remove(x) calls in fn and how
+    many of them cannot raise for an absent x (guarded by `x in self.<attr>`
+    or inside a try that catches ValueError / Exception)."""
+    n = tol = 0
+
+    def walk(node, guards, in_try):
+        nonlocal n, tol
+        if isinstance(node, ast.If):
+            g = set(guards)
+            for c in ast.walk(node.test):
+                if isinstance(c, ast.Compare) and len(c.ops) == 1 and \
+                        isinstance(c.ops[0], ast.In) and \
+                        isinstance(c.comparators[0], ast.Attribute) and \
+                        c.comparators[0].attr == attr:
+                    g.add(ast.dump(c.left))
+            for st in node.body:
+                walk(st, g, in_try)
+            for st in node.orelse:
+                walk(st, guards, in_try)
+            return
+        if isinstance(node, ast.Try):
+            catches = any(
+                h.type is None or any(
+                    isinstance(t, ast.Name) and t.id in (
+                        'ValueError', 'Exception', 'BaseException')
+                    for t in ast.walk(h.type)) for h in node.handlers)
+            for st in node.body:
+                walk(st, guards, in_try or catches)
+            for st in node.orelse + node.finalbody:
+                walk(st, guards, in_try)
+            for h in node.handlers:
+                for st in h.body:
+                    walk(st, guards, in_try)
+            return
+        if isinstance(node, ast.Call) and \
+                isinstance(node.func, ast.Attribute) and \
+                node.func.attr == 'remove' and \
+                isinstance(node.func.value, ast.Attribute) and \
+                node.func.value.attr == attr and len(node.args) == 1:
+            n += 1
+            if in_try or ast.dump(node.args[0]) in guards:
+                tol += 1
+        for ch in ast.iter_child_nodes(node):
+            walk(ch, guards, in_try)
+    walk(fn, frozenset(), False)
+    return n, tol
+
+
+def unregistering_during_notification(ctx):
+    """A disconnect callback may cancel itself (or another callback) while
+    it is being notified.  That works when the registry is still populated
+    during the notification (a snapshot is iterated), or when cancelling an
+    absent callback is harmless.  A loss handler that EMPTIES the registry
+    before it calls out, paired with a cancel method whose `.remove()` is
+    unguarded, makes such a callback raise ValueError out of connectionLost:
+    the remaining callbacks are skipped and the pending calls never fail."""
+    prog = ctx.prog
+    selft = ('param', 'self')
+    for qcls, attr in ((CC, '_dcCallbacks'),
+                       ('objects.RemoteDBusObject', '_disconnectCBs')):
+        cls = prog.cls(qcls)
+        lost = prog.lookup_method(cls, 'connectionLost')
+        cancel = prog.lookup_method(cls, 'cancelNotifyOnDisconnect')
+        if lost is None or cancel is None:
+            raise AnalysisError('anchor vanished: %s.connectionLost / '
+                                'cancelNotifyOnDisconnect' % qcls)
+        detached = False
+        for p in Interp(prog, exc_edges=False).run(lost):
+            seen_reset = False
+            for ev in p.trace:
+                if ev[0] == 'setattr' and ev[1] == selft and ev[2] == attr:
+                    seen_reset = True
+                if ev[0] == 'call' and kind(ev[1][2]) == 'attr' and \
+                        ev[1][2][1] == ('attr', selft, attr) and \
+                        ev[1][2][2] == 'clear':
+                    seen_reset = True
+                if ev[0] == 'loop' and seen_reset and any(
+                        kind(c[2]) in ('elem', 'loopvar')
+                        for bp in ev[4] for c in bp.calls()):
+                    detached = True
+        n, tol = _tolerant_removals(cancel.node, attr)
+        ctx.ob('C09.D3', lost.qualname, 'unregister-while-notified:%s' % attr,
+               (not detached) or n == tol,
+               'connectionLost empties self.%s before it calls the '
+               'callbacks, and %s removes from it without a guard: a '
+               'callback that cancels itself while being notified raises '
+               'ValueError out of connectionLost - the callbacks after it do '
+               'not run, the pending calls are not failed and their timers '
+               'later fire TimeOut' % (attr, cancel.qualname))
 
 
 def loss_sequence(ctx):
